@@ -84,6 +84,29 @@ func (s *Sim) mutateConf() *ConfSpec {
 			n = r.Range(0, 1)
 		}
 	}
+	// directed: a queue the configuration now calls a leaf still holds child queues in the core (its type was
+	// flipped while in use): take it out of the configuration
+	if s.post != nil && r.Bool(0.4) {
+		for _, path := range sortedKeys(s.post.Queues) {
+			cq, q := s.post.Queues[path], c.Find(path)
+			if q == nil || path == "root" || !q.IsLeaf() || len(cq.Children) == 0 {
+				continue
+			}
+			if par := c.parentOf(path); par != nil && len(par.Children) > 1 {
+				var keep []*QSpec
+				for _, ch := range par.Children {
+					if ch != q {
+						keep = append(keep, ch)
+					}
+				}
+				par.Children = keep
+				s.graveyard[path] = q.clone()
+				s.probe("directed_remove_flipped_queue")
+				n = r.Range(0, 1)
+				break
+			}
+		}
+	}
 	for i := 0; i < n; i++ {
 		qs := c.allQueues()
 		path := pick(r, qs)
